@@ -872,6 +872,20 @@ fn gen_c01_directed(out: &mut Out, rng: &mut Rng, n: usize) {
         let p0 = pages[case % 3];
         out.req("set_db_cp", format!("set_db_cp {p0}"));
         out.req("create_table", format!("create_table {t} {k}:i16:K:-:-:-:- {sc}:s32:N:-:-:-:-"));
+        if case % 4 == 3 {
+            // names of the format's own streams used as table names, with integer-only rows (no
+            // pool change): whatever is accepted must be read back, and nothing else may change
+            let a = format!("{}{}", "A".repeat(1 + case % 9), case % 7);
+            out.req("create_table", format!("create_table {} {k}:i16:K:-:-:-:-", hex_of_str(&a)));
+            let reserved = hex_of_str(*rng.pick(&["_StringData", "_StringPool", "_StringData"]));
+            out.req("create_reserved", format!("create_table {reserved} {k}:{}:K:-:-:-:-", rng.pick(&["i16", "i32"])));
+            out.req("flush", "flush".into());
+            out.req("snapshot", "snapshot".into());
+            out.req("insert_reserved", format!("insert {reserved} 1 1 I{}", 1 + rng.below(9)));
+            out.req("snapshot", "snapshot".into());
+            out.req("reopen", format!("reopen {}", rng.pick(&crate::hist::CLOSE_MODES)));
+            out.req("snapshot", "snapshot".into());
+        }
         out.req("insert", format!("insert {t} 3 2 I1 S{} 2 I2 S{} 2 I3 S{}", hex_of_str("caf\u{e9}"), hex_of_str("x"), hex_of_str("caf\u{e9}")));
         out.req("snapshot", "snapshot".into());
         out.req("reopen", format!("reopen {}", rng.pick(&crate::hist::CLOSE_MODES)));
